@@ -129,6 +129,45 @@ def write_if_changed(path, content):
     return True
 
 
+def build_goose():
+    """cmd/goose built from /repo's working tree."""
+    dst = os.path.join(BUILD, "bin", "goose")
+    os.makedirs(os.path.dirname(dst), exist_ok=True)
+    rc, o, e = sh(["go", "build", "-o", dst, "./cmd/goose"], cwd=REPO, timeout=900)
+    if rc != 0:
+        raise BuildError("go build ./cmd/goose failed:\n" + o + e)
+    return dst
+
+
+def gen_semantics(tmp):
+    """Translate internal/examples/semantics with the goose built from the
+    working tree; GenSemantics.v is that output, GenSemTests.v lists its
+    test functions (the upstream semantics suite)."""
+    goose = build_goose()
+    out = tempfile.mkdtemp(prefix="verif-sem-")
+    try:
+        rc, o, e = sh([goose, "-out", out, "./internal/examples/semantics"], cwd=REPO, timeout=300)
+        f = os.path.join(out, "github_com/goose_lang/goose/internal/examples/semantics.v")
+        if rc != 0 or not os.path.exists(f):
+            txt = "(* goose failed on internal/examples/semantics: rc=%d *)\n" % rc
+            names = []
+        else:
+            txt = open(f).read()
+            names = re.findall(r"^Definition ((?:failing_)?test[A-Za-z0-9_]*): val", txt, re.M)
+        open(os.path.join(tmp, "GenSemantics.v"), "w").write(txt)
+        good = [n for n in names if not n.startswith("failing_")]
+        bad = [n for n in names if n.startswith("failing_")]
+        fmt = lambda ns: "[" + "; ".join('("%s"%%string, %s)' % (n, n) for n in ns) + "]"
+        open(os.path.join(tmp, "GenSemTests.v"), "w").write(
+            "(* generated: the test functions of goose's output for internal/examples/semantics *)\n"
+            "From Coq Require Import String List.\nFrom GV Require Import Lang.GlSyntax.\nFrom GVGen Require Import GenSemantics.\nImport ListNotations.\n"
+            "Definition goose_translated_semantics : bool := %s.\n"
+            "Definition sem_tests : list (string * val) := %s.\n"
+            "Definition failing_sem_tests : list (string * val) := %s.\n" % ("true" if names else "false", fmt(good), fmt(bad)))
+    finally:
+        shutil.rmtree(out, ignore_errors=True)
+
+
 def regenerate():
     """Run srcextract on /repo and rewrite coq/gen/*.v where content changed.
     Returns (ok, message)."""
@@ -138,6 +177,7 @@ def regenerate():
         rc, o, e = sh([bins["srcextract"], "-repo", REPO, "-out", tmp], timeout=300)
         if rc != 0:
             return False, "srcextract failed: " + o + e
+        gen_semantics(tmp)
         for fn in sorted(os.listdir(tmp)):
             write_if_changed(os.path.join(COQ, "gen", fn), open(os.path.join(tmp, fn)).read())
         return True, o
